@@ -227,4 +227,28 @@ theorem C15.no_deadlock (s : Sys) (hm : Mutex s) (hd : Disciplined lockRank s)
     (hu : ∃ (i : Nat) (th : Thread), s[i]? = some th ∧ th.prog ≠ []) : ∃ i, enabled s i = true :=
   C14.rank_deadlock_free lockRank s hm hd hu
 
+/-! ### defect D12, as lock programs -/
+
+/-- the failure report of a worker **after** the repair: under the execution lock the job is
+    rendered without its state lock; if an argument references the scheduler, the scheduler's
+    `__repr__` takes the registry lock and renders the jobs, again without state locks — this is a
+    `registryOp []`, covered by `worker_disciplined` for every script -/
+theorem C15.failure_report_disciplined (i k : Nat) :
+    progOK lockRank i [] ([.acq (lockX k)] ++ registryOp [] ++ jobAccess k ++ [.rel (lockX k)]) := by
+  have h := workerJob_ok i k [[]] [] (by simp [progOK])
+  simpa [workerJob, registryOp, jobAccess, progOK] using h
+
+/-- **before** the repair `Job.__repr__` held the job's state lock while the arguments were
+    rendered: state lock (rank 2), then the registry lock (rank 1) — not a disciplined program; two
+    such workers are exactly the dead-lock the checks found -/
+theorem C15.d12_shape_not_disciplined (i k : Nat) :
+    ¬ progOK lockRank i [] ([.acq (lockX k), .acq (lockL k), .acq lockR, .rel lockR, .rel (lockL k), .rel (lockX k)]) := by
+  intro h
+  simp only [progOK] at h
+  obtain ⟨_, ⟨_, ⟨h3, _⟩⟩⟩ := h
+  rcases h3 with h3 | h3
+  · simp [lockR, lockL, lockX] at h3
+  · have := h3 (lockL k) (by simp)
+    simp at this
+
 end SV
